@@ -331,7 +331,10 @@ func TestC11(t *testing.T) {
 		go func(i int) {
 			defer wg.Done()
 			defer func() { <-sem }()
-			k, w := checkIn(items[i].tr, 1, fmt.Sprintf("w%d", i%8))
+			// one directory per trial: two trials that are in flight together must never share a description file
+			slot := fmt.Sprintf("t%d", i)
+			k, w := checkIn(items[i].tr, 1, slot)
+			_ = os.RemoveAll(filepath.Join(ev.Root(), "out", "run", "C11", slot))
 			results[i] = res{k, w}
 			if k != "" {
 				atomic.StoreInt32(&stop, 1)
